@@ -46,10 +46,12 @@ type fileInfo struct {
 }
 
 type report struct {
-	Aliased        []string `json:"aliased_files"`
-	RewrittenRange []string `json:"rewritten_map_ranges"`
-	UnownedRange   []string `json:"unowned_map_ranges"`
-	TypeErrors     int      `json:"type_errors_ignored"`
+	RewrittenSelect []string `json:"rewritten_selects"`
+	UnownedSelect   []string `json:"unowned_multiway_selects"`
+	Aliased         []string `json:"aliased_files"`
+	RewrittenRange  []string `json:"rewritten_map_ranges"`
+	UnownedRange    []string `json:"unowned_map_ranges"`
+	TypeErrors      int      `json:"type_errors_ignored"`
 }
 
 type loader struct {
@@ -112,8 +114,61 @@ func (l *loader) check(path string, fis []*fileInfo) *types.Package {
 
 var rangeCtr int
 
+// rewriteSelect turns a blocking multi-way select whose cases are all plain
+// receives into a switch over vhook.SelectRecv (deterministic priority).
+func (l *loader) rewriteSelect(fi *fileInfo, ss *ast.SelectStmt) {
+	off := func(p token.Pos) int { return l.fset.Position(p).Offset }
+	pos := l.fset.Position(ss.Pos())
+	where := fmt.Sprintf("%s:%d", fi.rel, pos.Line)
+	if len(ss.Body.List) < 2 {
+		return
+	}
+	for _, c := range ss.Body.List {
+		if c.(*ast.CommClause).Comm == nil && len(ss.Body.List) == 2 {
+			// one case plus default: non-blocking and deterministic
+			return
+		}
+	}
+	var chans []string
+	type caseEdit struct{ start, end int }
+	var edits []caseEdit
+	for _, c := range ss.Body.List {
+		cc := c.(*ast.CommClause)
+		if cc.Comm == nil {
+			// has a default: non-blocking; deterministic only with one other
+			// case, which is what the repository has
+			if len(ss.Body.List) > 2 {
+				l.rep.UnownedSelect = append(l.rep.UnownedSelect, where)
+			}
+			return
+		}
+		es, ok := cc.Comm.(*ast.ExprStmt)
+		if !ok {
+			l.rep.UnownedSelect = append(l.rep.UnownedSelect, where)
+			return
+		}
+		ue, ok := es.X.(*ast.UnaryExpr)
+		if !ok || ue.Op != token.ARROW {
+			l.rep.UnownedSelect = append(l.rep.UnownedSelect, where)
+			return
+		}
+		chans = append(chans, string(fi.src[off(ue.X.Pos()):off(ue.X.End())]))
+		edits = append(edits, caseEdit{off(cc.Case), off(cc.Colon)})
+	}
+	fi.edits = append(fi.edits, edit{off(ss.Select), off(ss.Body.Lbrace) + 1, "switch vhook.SelectRecv(" + strings.Join(chans, ", ") + ") {"})
+	for i, e := range edits {
+		fi.edits = append(fi.edits, edit{e.start, e.end, fmt.Sprintf("case %d", i)})
+	}
+	fi.needV = true
+	l.rep.RewrittenSelect = append(l.rep.RewrittenSelect, where)
+}
+
 func (l *loader) rewriteRanges(fi *fileInfo, info *types.Info) {
 	ast.Inspect(fi.ast, func(n ast.Node) bool {
+		if ss, ok := n.(*ast.SelectStmt); ok {
+			l.rewriteSelect(fi, ss)
+			return true
+		}
 		rs, ok := n.(*ast.RangeStmt)
 		if !ok {
 			return true
